@@ -329,7 +329,33 @@ pub fn corrupt_record_partial(rng: &mut Rng, l: &str) -> Option<String> {
 
 /// Characters that break assumptions: case mapping changes the UTF-8 length (U+0130, U+1E9E, U+212A, U+212B, U+0149),
 /// combining / zero-width / bidi marks, Unicode line separators, non-characters, the last scalar.
-pub const SPECIAL_CHARS: &[&str] = &["\u{130}", "\u{1E9E}", "\u{212A}", "\u{212B}", "\u{149}", "\u{DF}", "\u{FB03}", "\u{301}", "\u{200B}", "\u{200D}", "\u{202E}", "\u{2028}", "\u{2029}", "\u{85}", "\u{B}", "\u{C}", "\u{0}", "\u{FFFF}", "\u{FFFE}", "\u{10FFFF}", "\u{FEFF}", "\u{3A3}", "\u{1F1E6}\u{1F1FA}"];
+pub const SPECIAL_CHARS: &[&str] = &["\u{130}", "\u{1E9E}", "\u{212A}", "\u{212B}", "\u{149}", "\u{DF}", "\u{FB03}", "\u{301}", "\u{200B}", "\u{200D}", "\u{202E}", "\u{2028}", "\u{2029}", "\u{85}", "\u{B}", "\u{C}", "\u{0}", "\u{FFFF}", "\u{FFFE}", "\u{10FFFF}", "\u{FEFF}", "\u{3A3}", "\u{1F1E6}\u{1F1FA}", "\u{1A}", "\u{7F}", "\u{1B}", "\u{FF1A}", "\u{FF0C}", "\u{A0}", "\u{2003}"];
+
+/// L7: replace one ASCII separator / digit / sign by its full-width or typographic look-alike (U+FF1A for ':', U+FF0C for
+/// ',', U+FF5C for '|', U+FF3B/U+FF3D for brackets, U+FF0F for '/', U+2212 for '-', U+FF10.. for digits).
+pub fn confuse_char(rng: &mut Rng, text: &str) -> String {
+    let pos: Vec<(usize, char)> = text.char_indices().filter(|(_, c)| matches!(c, ':' | ',' | '|' | '[' | ']' | '/' | '-' | '.' | '0'..='9')).collect();
+    if pos.is_empty() {
+        return text.to_string();
+    }
+    let (i, c) = *rng.pick(&pos);
+    let r = match c {
+        ':' => '\u{FF1A}',
+        ',' => '\u{FF0C}',
+        '|' => '\u{FF5C}',
+        '[' => '\u{FF3B}',
+        ']' => '\u{FF3D}',
+        '/' => '\u{FF0F}',
+        '-' => '\u{2212}',
+        '.' => '\u{FF0E}',
+        d => char::from_u32(0xFF10 + (d as u32 - '0' as u32)).unwrap_or(d),
+    };
+    let mut out = String::with_capacity(text.len() + 3);
+    out.push_str(&text[..i]);
+    out.push(r);
+    out.push_str(&text[i + c.len_utf8()..]);
+    out
+}
 
 /// L6: insert a special character into a random line, biased to the very start of the line.
 pub fn insert_special_char(rng: &mut Rng, text: &str) -> String {
@@ -492,13 +518,15 @@ pub fn gen_osu(rng: &mut Rng) -> String {
     let mut o = String::new();
     let nl = if rng.chance(1, 4) { "\r\n" } else { "\n" };
     let mode = rng.range(0, 3);
-    match rng.below(12) {
+    match rng.below(14) {
         0 => {}
         1 => o.push_str(&format!("osu file format v{}{nl}", rng.pick(HOSTILE))),
         2 => o.push_str(&format!("{nl}{nl}osu file format v{}{nl}", rng.range(3, 14))),
         3 => o.push_str(&format!("osu file format v128{nl}")),
         4 => o.push_str(&format!("{nl}// exported by a tool{nl}osu file format v{}{nl}", rng.range(3, 13))),
         5 => o.push_str(&format!("//{nl}{nl}osu file format v{}{nl}", rng.range(3, 13))),
+        6 => o.push_str(&format!("{nl}{nl}{}osu file format v{}{nl}", rng.pick(&["  ", "\t", " \t ", "\u{3000}"]), rng.range(3, 13))),
+        7 => o.push_str(&format!("{nl} {nl}\t{nl}")),
         _ => o.push_str(&format!("osu file format v{}{nl}", rng.range(3, 14))),
     }
     let mut order: Vec<&str> = SECTIONS.to_vec();
@@ -710,9 +738,16 @@ pub fn record_faults(rng: &mut Rng, text: &str, n: usize) -> (String, Vec<&'stat
                 applied.push("L5-noise");
             }
             _ => {
-                let t = insert_special_char(rng, &lines.join("\n"));
-                lines = t.split('\n').map(str::to_string).collect();
-                applied.push("L6-special-char");
+                if rng.chance(1, 2) {
+                    let t = insert_special_char(rng, &lines.join("\n"));
+                    lines = t.split('\n').map(str::to_string).collect();
+                    applied.push("L6-special-char");
+                } else {
+                    // confusable inside one line (biased to lines with a key)
+                    let k = rng.below(lines.len());
+                    lines[k] = confuse_char(rng, &lines[k]);
+                    applied.push("L7-confusable-char");
+                }
             }
         }
     }
